@@ -274,6 +274,11 @@ def run(rep) -> None:
         docs["reserved-names"] = reserved_named_document()
         docs["enum-collisions"] = enum_collision_document()
         docs["defaults-corner"] = defaults_corner_document()
+        # titles whose derived project / package names leave ASCII, start with digits, contain dots and dashes or are keywords: names end up in
+        # pyproject.toml / setup.py of every flavour
+        for ti, title in enumerate(["K\u00e4se Lager", "\u0418\u043d\u0432\u0435\u043d\u0442\u0430\u0440\u044c", "\u5728\u5eab API", "\u0661\u0662\u0663 numbers", "a.b-c d", "class", "1st API"]):
+            docs[f"title-{ti}"] = gen.mkdoc({"T": {"type": "object", "properties": {"v": {"type": "string"}}}},
+                                             {"/t": {"get": {"operationId": "t", "responses": {"200": {"description": "d", "content": {"application/json": {"schema": {"$ref": "#/components/schemas/T"}}}}}}}}, title=title)
         docs["consts"] = consts_document()
         docs["shared-names-failing"] = shared_names_with_failing_document()
         docs["typing-named"] = typing_named_document()
